@@ -35,7 +35,7 @@ Proof.
 Qed.
 
 (* ---------- __init__ ---------- *)
-Definition ok_iterS (iterS : list str -> list str) : Prop := forall l c, In c (iterS l) <-> In c l.
+Definition ok_iterS (iterS : list str -> list str) : Prop := forall l, NoDup (iterS l) /\ forall c, In c (iterS l) <-> In c l.
 Definition ok_iterN (iterN : list nat -> list nat) : Prop := forall l, NoDup l -> NoDup (iterN l) /\ forall x, In x (iterN l) <-> In x l.
 
 Section Init.
@@ -70,7 +70,7 @@ Lemma init_bget (k : nat) (l : list str) : forall s vd c j,
 Proof.
   induction l as [|x l IH]; intros s vd c j; simpl.
   - split; [tauto|]. intros [H|[H _]]; [exact H|lia].
-  - pose proof IS as IS'. unfold ok_iterS in IS'. rewrite IH, inner_bget, IS'. split.
+  - rewrite IH, inner_bget, (proj2 (IS _) c). split.
     + intros [[H|[-> H]]|[H1 H2]].
       * tauto.
       * right. split; [lia|]. now rewrite Nat.sub_diag.
@@ -191,9 +191,9 @@ Proof.
   assert (C : forall seq, NoDup (cands seq) /\ forall j, In j (cands seq) <-> In j (cand_refs k refs seq)).
   { intros seq. destruct (cand_fold vd (iterS (gen_comb_gen seq k)) [] (NoDup_nil _)) as [H1 H2]. split; [exact H1|].
     intros j. unfold cands. rewrite H2. unfold cand_refs. rewrite nodup_In, in_flat_map. split.
-    - intros [[]|(c & Hc & Hj)]. apply (proj1 (IS _ _)) in Hc. apply (proj1 (gen_comb_gen_model _ _ _)) in Hc.
+    - intros [[]|(c & Hc & Hj)]. apply (proj1 (proj2 (IS _) _)) in Hc. apply (proj1 (gen_comb_gen_model _ _ _)) in Hc.
       unfold vd in Hj. apply (gen_init_bucket iterS IS) in Hj. exists c. split; auto. now apply in_bucket.
-    - intros (c & Hc & Hj). right. exists c. split; [apply (proj2 (IS _ _)); now apply (proj2 (gen_comb_gen_model _ _ _))|].
+    - intros (c & Hc & Hj). right. exists c. split; [apply (proj2 (proj2 (IS _) _)); now apply (proj2 (gen_comb_gen_model _ _ _))|].
       unfold vd. apply (gen_init_bucket iterS IS). now apply in_bucket in Hj. }
   split.
   - intros i j d. rewrite E, in_flat_map. unfold enumerate. split.
@@ -304,3 +304,210 @@ Proof.
     * discriminate. * intros (q & _ & H'); discriminate.
     * intros [= <-]. eauto. * intros (q & -> & [= <-]). reflexivity.
 Qed.
+
+(* ================= symdel(), self mode ================= *)
+From PV Require Import lib.Combinations proofs.CombinationsP.
+
+Lemma sublist2_in {A} (a b : A) l : sublist [a; b] l -> In a l /\ In b l.
+Proof. intros H. apply sublist_incl in H. split; apply H; simpl; auto. Qed.
+
+Lemma sublist2_neq {A} (a b : A) l : NoDup l -> sublist [a; b] l -> a <> b.
+Proof.
+  induction l as [|x l IH]; intros ND H; inversion H as [|x' c' l' Hs|x' c' l' Hs]; subst.
+  - inversion ND as [|x' l' Hn ND']; subst. intros ->. apply Hn. apply sublist_incl in Hs. apply Hs. simpl. auto.
+  - inversion ND; subst. apply IH; assumption.
+Qed.
+
+Lemma sublist1 {A} (b : A) l : In b l -> sublist [b] l.
+Proof.
+  induction l as [|x l IH]; intros H; [destruct H|]. destruct H as [->|H].
+  - constructor. apply sublist_nil_l.
+  - constructor 3. now apply IH.
+Qed.
+
+Lemma sublist2_total {A} (a b : A) l : In a l -> In b l -> a <> b -> sublist [a; b] l \/ sublist [b; a] l.
+Proof.
+  induction l as [|x l IH]; intros Ha Hb N; [destruct Ha|].
+  destruct Ha as [->|Ha], Hb as [->|Hb]; try congruence.
+  - left. constructor. now apply sublist1.
+  - right. constructor. now apply sublist1.
+  - destruct (IH Ha Hb N) as [H|H]; [left|right]; now constructor 3.
+Qed.
+
+(* the dict built by __init__: distinct keys, every stored list is the bucket of its key, buckets duplicate-free *)
+Section InitShape.
+Variable iterS : list str -> list str.
+Hypothesis IS : ok_iterS iterS.
+
+Definition dict_wf (vd : list (str * list nat)) : Prop := NoDup (map fst vd).
+
+Lemma dict_set_keys c (v : list nat) (vd : list (str * list nat)) : map fst (dict_set str_eqb c v vd) = if dict_mem str_eqb c vd then map fst vd else map fst vd ++ [c].
+Proof.
+  induction vd as [|[k w] vd IH]; simpl; [reflexivity|]. destruct (str_eqb k c) eqn:E; simpl; [reflexivity|].
+  rewrite IH. destruct (dict_mem str_eqb c vd); reflexivity.
+Qed.
+
+Lemma dict_mem_in c (vd : list (str * list nat)) : dict_mem str_eqb c vd = true <-> In c (map fst vd).
+Proof.
+  induction vd as [|[k w] vd IH]; simpl; [split; [discriminate|tauto]|]. destruct (str_eqb k c) eqn:E.
+  - apply str_eqb_eq in E. subst. split; auto.
+  - rewrite IH. split; [auto|]. intros [->|H]; [|exact H]. rewrite str_eqb_refl in E. discriminate.
+Qed.
+
+Lemma add_pos_wf i vd comb : dict_wf vd -> dict_wf (add_pos i vd comb).
+Proof.
+  unfold dict_wf, add_pos. intros W. destruct (dict_mem str_eqb comb vd) eqn:M; rewrite dict_set_keys, M; [exact W|].
+  apply NoDup_app_intro; [exact W|repeat constructor; simpl; tauto|].
+  intros x Hx [<-|[]]. apply dict_mem_in in Hx. congruence.
+Qed.
+
+Lemma init_wf k refs : dict_wf (gen_symdeldb_init iterS refs k).
+Proof.
+  unfold gen_symdeldb_init.
+  change (fun (variant_dict : list (str * list nat)) '(i, seq) => fold_left _ (iterS (gen_comb_gen seq k)) variant_dict)
+    with (fun (vd : list (str * list nat)) '(i, seq) => fold_left (add_pos i) (iterS (gen_comb_gen seq k)) vd).
+  assert (G : forall l vd, dict_wf vd -> dict_wf (fold_left (fun (vd : list (str * list nat)) '(i, seq) =>
+              fold_left (add_pos i) (iterS (gen_comb_gen seq k)) vd) l vd)).
+  { induction l as [|[i s] l IH]; intros vd W; simpl; [exact W|]. apply IH.
+    revert vd W. induction (iterS (gen_comb_gen s k)) as [|c L IHL]; intros vd W; simpl; [exact W|]. apply IHL. now apply add_pos_wf. }
+  apply G. constructor.
+Qed.
+
+Lemma wf_item vd key values : dict_wf vd -> In (key, values) vd -> bget vd key = values.
+Proof.
+  unfold dict_wf, bget. induction vd as [|[k w] vd IH]; intros W H; [destruct H|]. simpl in *. inversion W; subst.
+  destruct H as [[= -> ->]|H].
+  - now rewrite str_eqb_refl.
+  - destruct (str_eqb k key) eqn:E; [|now apply IH]. apply str_eqb_eq in E. subst. exfalso.
+    match goal with N : ~ In _ (map fst vd) |- _ => apply N end. apply in_map_iff. exists (key, values). auto.
+Qed.
+
+Lemma bget_item vd c : bget vd c <> [] -> In (c, bget vd c) vd.
+Proof.
+  unfold bget. induction vd as [|[k w] vd IH]; simpl; intros H; [congruence|]. destruct (str_eqb k c) eqn:E.
+  - apply str_eqb_eq in E. subst. now left.
+  - right. now apply IH.
+Qed.
+
+(* buckets are duplicate-free: positions are appended in increasing order, once per sequence *)
+Lemma add_pos_bound i vd comb c : (forall j, In j (bget vd c) -> j < i) -> NoDup (bget vd c) ->
+  (c <> comb -> bget (add_pos i vd comb) c = bget vd c) /\
+  (c = comb -> bget (add_pos i vd comb) c = bget vd c ++ [i]).
+Proof.
+  intros B ND. unfold add_pos. split; intros H.
+  - destruct (dict_mem str_eqb comb vd); apply bget_set_other; congruence.
+  - subst. destruct (dict_mem str_eqb comb vd) eqn:M; rewrite bget_set_same; [reflexivity|]. now rewrite (bget_absent vd comb M).
+Qed.
+
+Lemma inner_nodup i : forall L vd c, NoDup L -> (forall j, In j (bget vd c) -> j < i) -> NoDup (bget vd c) ->
+  NoDup (bget (fold_left (add_pos i) L vd) c) /\ (forall j, In j (bget (fold_left (add_pos i) L vd) c) -> j <= i).
+Proof.
+  induction L as [|comb L IH]; intros vd c NDL B ND; simpl.
+  - split; [exact ND|]. intros j Hj. apply B in Hj. lia.
+  - inversion NDL as [|? ? Hn NDL']; subst.
+    destruct (add_pos_bound i vd comb c B ND) as [H1 H2]. destruct (str_eq_dec c comb) as [->|N].
+    + (* the key of this step: i appended once; later steps use other keys *)
+      assert (E : forall L' vd', ~ In comb L' -> bget (fold_left (add_pos i) L' vd') comb = bget vd' comb).
+      { induction L' as [|c' L' IHL']; intros vd' Hn'; simpl; [reflexivity|]. rewrite IHL' by (simpl in Hn'; tauto).
+        unfold add_pos. destruct (dict_mem str_eqb c' vd'); apply bget_set_other; simpl in Hn'; intuition congruence. }
+      rewrite E by exact Hn. rewrite (H2 eq_refl). split.
+      * apply NoDup_app_intro; [exact ND|repeat constructor; simpl; tauto|]. intros x Hx [<-|[]]. apply B in Hx. lia.
+      * intros j Hj. apply in_app_iff in Hj as [Hj|[<-|[]]]; [apply B in Hj; lia|lia].
+    + apply IH; [exact NDL'| |]; rewrite (H1 N); assumption.
+Qed.
+
+Lemma init_nodup k : forall l s vd c, (forall j, In j (bget vd c) -> j < s) -> NoDup (bget vd c) ->
+  NoDup (bget (fold_left (fun vd '(i, seq) => fold_left (add_pos i) (iterS (gen_comb_gen seq k)) vd)
+                         (combine (seq s (length l)) l) vd) c).
+Proof.
+  induction l as [|x l IH]; intros s vd c B ND; simpl; [exact ND|].
+  destruct (inner_nodup s (iterS (gen_comb_gen x k)) vd c (proj1 (IS _)) B ND) as [H1 H2].
+  apply IH; [|exact H1]. intros j Hj. apply H2 in Hj. lia.
+Qed.
+
+Lemma gen_init_nodup k refs c : NoDup (bget (gen_symdeldb_init iterS refs k) c).
+Proof.
+  unfold gen_symdeldb_init, enumerate.
+  change (fun (variant_dict : list (str * list nat)) '(i, seq) => fold_left _ (iterS (gen_comb_gen seq k)) variant_dict)
+    with (fun (vd : list (str * list nat)) '(i, seq) => fold_left (add_pos i) (iterS (gen_comb_gen seq k)) vd).
+  apply init_nodup; [intros j []|constructor].
+Qed.
+End InitShape.
+
+Section Self.
+Context {D : Type}.
+Variable iterS : list str -> list str.
+Hypothesis IS : ok_iterS iterS.
+Variable eqD : forall a b : D, {a = b} + {a <> b}.
+Variable dist : str -> str -> D.
+Variable lev : str -> str -> nat.
+Variable gtD : D -> D -> bool.
+Variable is_custom : bool.
+Variable threshold : D.
+Variable k : nat.
+Let keep := gen_keep dist lev gtD is_custom threshold k.
+Hypothesis W : forall a b d, keep a b = Some d -> within a b k.
+Hypothesis S : forall a b, keep a b = keep b a.
+
+Definition pair_out (seqs : list str) (c : list nat) : list (nat * nat * D) :=
+  match c with
+  | [i; j] => match keep (nth i seqs []) (nth j seqs []) with Some d => [(i, j, d); (j, i, d)] | None => [] end
+  | _ => []
+  end.
+
+Lemma fold_set_add_gen {A} (dec : forall a b : A, {a = b} + {a <> b}) (l : list A) : forall acc, NoDup acc ->
+  NoDup (fold_left (fun acc t => set_add dec t acc) l acc) /\
+  forall x, In x (fold_left (fun acc t => set_add dec t acc) l acc) <-> In x acc \/ In x l.
+Proof.
+  induction l as [|y l IH]; intros acc ND; simpl; [split; [exact ND|tauto]|].
+  destruct (IH (set_add dec y acc)) as [H1 H2]; [now apply set_add_nodup|]. split; [exact H1|].
+  intros x. rewrite H2, (set_add_iff dec). intuition.
+Qed.
+
+Lemma fold_flat {A B} (f : B -> list A) (g : list A -> A -> list A) (l : list B) : forall acc,
+  fold_left (fun ans kv => fold_left g (f kv) ans) l acc = fold_left g (flat_map f l) acc.
+Proof. induction l as [|x l IH]; intros acc; simpl; [reflexivity|]. rewrite fold_left_app. apply IH. Qed.
+
+Theorem gen_symdel_self_spec (seqs : list str) :
+  let out := gen_symdel_self iterS eqD dist lev gtD seqs k is_custom threshold in
+  (forall i j d, In (i, j, d) out <->
+     i < length seqs /\ j < length seqs /\ i <> j /\ keep (sget seqs i) (sget seqs j) = Some d) /\
+  NoDup out.
+Proof.
+  intros out. set (vd := gen_symdeldb_init iterS seqs k).
+  set (contrib := fun (kv : str * list nat) => flat_map (pair_out seqs) (combinations (snd kv) 2)).
+  (* the loop body as written (with or without the `len(values) == 1` shortcut) adds exactly contrib(key, values) *)
+  assert (E0 : out = fold_left (fun ans kv => fold_left (fun acc t => set_add (trip_dec eqD) t acc) (contrib kv) ans) vd []).
+  { unfold out, gen_symdel_self. fold vd. cbv zeta. apply fold_left_ext_all. intros ans [key values]. unfold contrib. simpl snd.
+    try (destruct (Nat.eqb (length values) 1) eqn:L1;
+         [apply Nat.eqb_eq in L1; rewrite (combinations_too_long values 2) by lia; reflexivity|]).
+    revert ans. induction (combinations values 2) as [|c cs IHc]; intros acc'; simpl; [reflexivity|].
+    rewrite fold_left_app, <- IHc. f_equal.
+    destruct c as [|i [|j [|? ?]]]; try reflexivity. unfold pair_out, keep, gen_keep. cbv zeta.
+    destruct (gtD (dist (nth i seqs []) (nth j seqs [])) threshold); [reflexivity|].
+    destruct (is_custom && (k <? lev (nth i seqs []) (nth j seqs []))); reflexivity. }
+  assert (E : out = fold_left (fun acc t => set_add (trip_dec eqD) t acc) (flat_map contrib vd) []).
+  { rewrite E0. apply fold_flat. }
+  destruct (fold_set_add_gen (trip_dec eqD) (flat_map contrib vd) [] (NoDup_nil _)) as [ND M]. rewrite <- E in ND, M.
+  split; [|exact ND]. intros i j d. rewrite M. split.
+  - intros [[]|H]. apply in_flat_map in H as ([key values] & Hkv & H). unfold contrib in H. simpl snd in H.
+    apply in_flat_map in H as (c & Hc & H).
+    apply combinations_spec in Hc as [Hs Hl]. destruct c as [|a [|b [|? ?]]]; try discriminate. unfold pair_out in H.
+    assert (V : bget vd key = values) by (apply wf_item; [apply (init_wf iterS)|exact Hkv]).
+    destruct (sublist2_in _ _ _ Hs) as [Ha Hb]. rewrite <- V in Ha, Hb.
+    apply (gen_init_bucket iterS IS) in Ha as [Ha _]. apply (gen_init_bucket iterS IS) in Hb as [Hb _].
+    assert (Nab : a <> b) by (eapply sublist2_neq; [|exact Hs]; rewrite <- V; apply (gen_init_nodup iterS IS)).
+    destruct (keep (nth a seqs []) (nth b seqs [])) eqn:K; [|destruct H].
+    destruct H as [[= <- <- <-]|[[= <- <- <-]|[]]]; repeat split; auto.
+    unfold sget. rewrite S. exact K.
+  - intros (Hi & Hj & Nij & K). right.
+    destruct (shared_variant k _ _ (W _ _ _ K)) as (c & Hci & Hcj).
+    assert (Bi : In i (bget vd c)) by (apply (gen_init_bucket iterS IS); auto).
+    assert (Bj : In j (bget vd c)) by (apply (gen_init_bucket iterS IS); auto).
+    apply in_flat_map. exists (c, bget vd c). split; [apply bget_item; intros Z; rewrite Z in Bi; destruct Bi|].
+    unfold contrib. simpl snd. apply in_flat_map.
+    destruct (sublist2_total i j (bget vd c) Bi Bj Nij) as [H|H].
+    + exists [i; j]. split; [apply combinations_spec; auto|]. unfold pair_out. unfold sget in K. rewrite K. now left.
+    + exists [j; i]. split; [apply combinations_spec; auto|]. unfold pair_out. unfold sget in K. rewrite S in K. rewrite K. right. now left.
+Qed.
+End Self.
